@@ -1,23 +1,25 @@
 (* StopPromptAlm.v — C19 under ALM: promptness of stop() for ALMSolver<PANOCSolver> on the composed whole-run model
    (AlmCompose.v / AlmPanoc.v), for a STICKY request.  Over R, for every problem, direction provider, clock, parameter set.
 
-   The stop flag of the composed model is a function of the CUMULATIVE event counters (world w = sum over the finished solves),
-   so one sticky oracle describes a request that stays set across inner solves — ALM never clears it and never polls it.
+   ALMSolver::stop() sets ALM's own flag and forwards to the inner solver; neither flag is cleared.  In the composed model both are the
+   one oracle stop_req, a function of the CUMULATIVE event counters (world w = sum over the finished solves): the inner solver polls
+   it at its stop checks, the outer loop reads it once per outer iteration, after the inner solve (Alm.ir_stop = stop_req at the
+   world the solve hands on).
 
    Proved:
      inner_request_during      the inner solve in which a poll sees the request returns after at most ONE further poll, <= 2 oracle
                                calls, no direction call, no iterate update (StopPrompt.prompt_after), and the world it hands on is
                                one in which the request is visible
      inner_after_request       an inner solve STARTED with the request visible is start-up + one stop check: no iteration, no
-                               direction call, <= 5 + (initial step-size halvings) oracle calls (`one_check`)
-     called_after_request      every later inner solve of the same ALM run is such a one-check solve
-     alm_panoc_stop_prompt     the composed statement on the trace of ALMSolver::operator()
-     alm_one_more_if_interrupted  if the first solve started after the request returns Interrupted (i.e. no higher-ranked condition
-                               holds at its first check), it is the LAST: at most one further inner solve
-   NOT true (finding, see Properties_C19.v): "at most one further inner solve" without that hypothesis — ALM does not poll the flag,
-   so while every further inner solve ends at its first check with a status ranked ABOVE Interrupted (Converged: the warm start
-   already meets the inner tolerance; NotFinite; MaxIter with max_iter = 0; MaxTime) the outer loop keeps going until its own
-   exit test fires. *)
+                               direction call, <= 5 + (initial step-size halvings) oracle calls (`one_check`), and hands the request on
+     inner_stop_flag           what the outer loop reads after an inner solve is the request at the world that solve hands on
+     alm_panoc_stop_ends_run   MAIN: the outer iteration at whose end the request is visible is the LAST one — no further inner solve
+                               is started — with status Interrupted (inner) / Converged > MaxTime > MaxIter > Interrupted
+                               (AlmComposeProofs.run_ends_at); the request is visible there whenever a poll of that inner solve saw it
+                               (that solve is then prompt) or it was visible when the solve started (that solve is then one-check)
+   Before the repair of ALMSolver::stop() (which only forwarded to the inner solver) the last statement was FALSE: while the inner
+   solves ended at their first check with a status ranked above Interrupted (Converged: the warm start already meets the inner
+   tolerance) the outer loop ran on until its own exit test fired (known_findings: C19:alm-runs-on-after-stop-request). *)
 From Coq Require Import Reals List ZArith Lra Lia Bool Arith.
 From Alpaqa Require Import Num NumR Vec Prox SolverStatus SolverKernels StopChain StopChainProofs AugLag Panoc
                            Alm AlmProofs AlmCompose AlmComposeProofs AlmPanoc StopPrompt.
@@ -73,6 +75,14 @@ Section AlmStop.
       [| |discriminate]; intros E; inversion E; subst; clear E; (split; [apply cadd_le_l|]); cbn [ir_status ir_iters]; repeat split.
   Qed.
 
+  (* what the outer loop reads from ALM's own flag after this inner solve: the request, at the world the solve hands on *)
+  Lemma inner_stop_flag w i x y Σ tol e r x' lg w' : inner_ w i x y Σ tol e = Some (r, x', lg, w') -> ir_stop r = stop_req w'.
+  Proof.
+    unfold inner. cbv zeta.
+    match goal with |- context [match ?X with Done _ => _ | NotFiniteL _ => _ | OutOfFuel => _ end] => destruct X as [o|L|] end;
+      [| |discriminate]; intros E; inversion E; subst; clear E; reflexivity.
+  Qed.
+
   (* the inner solve during which a poll sees the request *)
   Theorem inner_request_during w i x y Σ tol e r x' o w' : inner_ w i x y Σ tol e = Some (r, x', Done o, w') ->
     forall pp, inner_polled w x y Σ tol e pp -> stop_req (cadd w (pp_cnt pp)) = true ->
@@ -109,20 +119,6 @@ Section AlmStop.
     destruct (panoc_stop_before_start _ _ _ _ _ _ _ _ _ _ _ _ _ _ _ _ _ (sticky_shift stop_req w Hsticky) _ _ Er H0)
       as (A1 & A2 & A3 & A4 & A5 & A6 & A7 & A8).
     repeat (split; [assumption|]). split; [reflexivity|exact A3].
-  Qed.
-
-  (* a chain of inner solves in which every solve is a one-check solve *)
-  Inductive called1 : counters -> list irecR -> Prop :=
-  | c1_nil w : called1 w []
-  | c1_cons w rc x x' lg w' tr :
-      inner_ w (it_i rc) x (it_y rc) (it_Sigma rc) (it_tol rc) (it_err_in rc) = Some (it_res rc, x', lg, w') ->
-      one_check lg (it_res rc) -> called1 w' tr -> called1 w (rc :: tr).
-
-  Theorem called_after_request x w tr xf wf : called_ x w tr xf wf -> stop_req w = true -> called1 w tr /\ stop_req wf = true.
-  Proof.
-    induction 1 as [x w|x w rc x' lg w' tr xf wf Ein _ IH]; intros Hw; [split; [constructor|exact Hw]|].
-    destruct (inner_after_request _ _ _ _ _ _ _ _ _ _ _ Hw Ein) as [A B]. destruct (IH B) as [C D].
-    split; [econstructor; eassumption|exact D].
   Qed.
 
   Lemma called_split : forall pre x0 w0 rc post xf wf, called_ x0 w0 (pre ++ rc :: post) xf wf ->
@@ -168,58 +164,48 @@ Section AlmStop.
     rewrite Hfin in Hex.
     destruct (run_interrupted_immediate AP pb _ _ nanv Σ0 y0 script Hmi Hm Hex) as (pre' & rl & E1 & Hf & Hst).
     rewrite <- Htr in E1.
+    assert (Hf' : Forall (fun a => ir_status (it_res a) <> Interrupted) pre') by (eapply Forall_impl; [|exact Hf]; intros a [Ha _]; exact Ha).
     assert (Hpost : post = []) by (eapply interrupted_is_last; eassumption).
-    split; [exact Hpost|]. subst post. rewrite Hfin. apply Hst.
+    split; [exact Hpost|]. subst post. rewrite Hfin. apply Hst. left.
     rewrite Etr in E1. apply app_inj_tail in E1. destruct E1 as [_ <-]. exact Hi.
   Qed.
 
-  (* MAIN.  rc = the outer iteration in whose inner solve some poll sees the request *)
-  Theorem alm_panoc_stop_prompt outer_fuel nanv Σ0 y0 x0 co : almp outer_fuel nanv Σ0 y0 x0 = Some co ->
+  (* MAIN.  rc = any outer iteration of the run; w / w' = the worlds in which its inner solve started / which it handed on *)
+  Theorem alm_panoc_stop_ends_run outer_fuel nanv Σ0 y0 x0 co : almp outer_fuel nanv Σ0 y0 x0 = Some co ->
     forall pre rc post, co_trace co = pre ++ rc :: post ->
     exists (x : list R) (w : counters) (x' : list R) (lg : resR) (w' : counters),
       (* the x buffer and the world in which that inner solve started, and what it returned *)
       called_ x0 cnt0 pre x w /\
       inner_ w (it_i rc) x (it_y rc) (it_Sigma rc) (it_tol rc) (it_err_in rc) = Some (it_res rc, x', lg, w') /\
-      forall pp, inner_polled w x (it_y rc) (it_Sigma rc) (it_tol rc) (it_err_in rc) pp -> stop_req (cadd w (pp_cnt pp)) = true ->
-        (* (1) this solve returns after at most one further poll / 2 oracle calls / no direction call / no iterate update *)
-        (exists o, lg = Done o /\ inner_prompt_after (it_tol rc) pp o) /\
-        (* (2) Interrupted is propagated at once *)
-        (ir_status (it_res rc) = Interrupted -> post = [] /\ f_status (co_final co) = Interrupted) /\
-        (* (3) every later inner solve is start-up + ONE stop check: no iteration, no direction call *)
-        called1 w' post /\
-        (* (4) and the first of them that returns Interrupted is the last *)
-        (forall post1 rc' post2, post = post1 ++ rc' :: post2 -> ir_status (it_res rc') = Interrupted ->
-           post2 = [] /\ f_status (co_final co) = Interrupted).
+      (* (A) the request is visible when the inner solve returns: the RUN ends at this outer iteration, no further inner solve *)
+      (stop_req w' = true -> run_ends_at AP (pb_of Pb split) pre rc post (co_final co)) /\
+      (* (B) it is, when a poll of this inner solve sees the request — and that solve then returns after at most one further poll /
+             2 oracle calls / no direction call / no iterate update *)
+      (forall pp, inner_polled w x (it_y rc) (it_Sigma rc) (it_tol rc) (it_err_in rc) pp -> stop_req (cadd w (pp_cnt pp)) = true ->
+         (exists o, lg = Done o /\ inner_prompt_after (it_tol rc) pp o) /\ stop_req w' = true) /\
+      (* (C) it is, when the request was visible before this inner solve started — and that solve is then start-up + ONE stop check *)
+      (stop_req w = true -> one_check lg (it_res rc) /\ stop_req w' = true) /\
+      (* (D) Interrupted from the inner solver is propagated at once *)
+      (ir_status (it_res rc) = Interrupted -> post = [] /\ f_status (co_final co) = Interrupted).
   Proof.
     intros Hrun pre rc post Etr. pose proof Hrun as Hrun'. unfold alm_panoc in Hrun'.
     destruct (c_run_spec _ _ _ _ _ _ _ _ _ _ _ _ _ _ Hrun') as (script & _ & _ & _ & Hcalled & _).
     rewrite Etr in Hcalled. destruct (called_split _ _ _ _ _ _ _ Hcalled) as (x & w & x' & lg & w' & A & B & C).
-    exists x, w, x', lg, w'. split; [exact A|]. split; [exact B|]. intros pp Hp Hs.
-    destruct (inner_world _ _ _ _ _ _ _ _ _ _ _ B) as (_ & Hlg).
-    assert (Hdone : exists o, lg = Done o /\ inner_prompt_after (it_tol rc) pp o /\ stop_req w' = true).
-    { destruct lg as [o|L|]; [|exfalso|contradiction].
-      - destruct (inner_request_during _ _ _ _ _ _ _ _ _ _ _ B pp Hp Hs) as [D E]. exists o. split; [reflexivity|split; assumption].
+    exists x, w, x', lg, w'. split; [exact A|]. split; [exact B|].
+    split.
+    { intros Hs. apply (c_run_stop_ends_run _ _ _ _ _ _ _ _ _ _ _ _ _ _ Hrun' pre rc post Etr).
+      rewrite (inner_stop_flag _ _ _ _ _ _ _ _ _ _ _ B). exact Hs. }
+    split.
+    { intros pp Hp Hs. destruct lg as [o|L|].
+      - destruct (inner_request_during _ _ _ _ _ _ _ _ _ _ _ B pp Hp Hs) as [D E]. split; [exists o; split; [reflexivity|exact D]|exact E].
       - (* a solve aborted in the start-up has no poll *)
-        destruct Hp as (s0 & Hs0 & _).
+        exfalso. destruct Hp as (s0 & Hs0 & _).
         unfold inner in B. cbv zeta in B.
         match type of B with context [match ?X with Done _ => _ | NotFiniteL _ => _ | OutOfFuel => _ end] => destruct X as [o1|L1|] eqn:Er end;
           [discriminate| |discriminate].
-        exact (panoc_notfinite_no_start _ _ _ _ _ _ _ _ _ _ _ _ _ _ _ _ _ _ _ Er s0 Hs0). }
-    destruct Hdone as (o & -> & D & E).
-    split; [exists o; split; [reflexivity|exact D]|].
-    split; [intros Hi; exact (alm_trace_interrupted_last _ _ _ _ _ _ Hrun pre rc post Etr Hi)|].
-    split; [destruct (called_after_request _ _ _ _ _ C E) as [C1 _]; exact C1|].
-    intros post1 rc' post2 Ep Hi.
-    apply (alm_trace_interrupted_last _ _ _ _ _ _ Hrun (pre ++ rc :: post1) rc' post2); [|exact Hi].
-    rewrite Etr, Ep, <- app_assoc. reflexivity.
-  Qed.
-
-  (* under the hypothesis that the next solve's first check has no higher-ranked condition: AT MOST ONE further inner solve *)
-  Corollary alm_one_more_if_interrupted outer_fuel nanv Σ0 y0 x0 co : almp outer_fuel nanv Σ0 y0 x0 = Some co ->
-    forall pre rc rc' post2, co_trace co = pre ++ rc :: rc' :: post2 -> ir_status (it_res rc') = Interrupted ->
-    post2 = [] /\ f_status (co_final co) = Interrupted.
-  Proof.
-    intros Hrun pre rc rc' post2 Etr Hi.
-    apply (alm_trace_interrupted_last _ _ _ _ _ _ Hrun (pre ++ [rc]) rc' post2); [|exact Hi]. rewrite Etr, <- app_assoc. reflexivity.
+        exact (panoc_notfinite_no_start _ _ _ _ _ _ _ _ _ _ _ _ _ _ _ _ _ _ _ Er s0 Hs0).
+      - destruct (inner_world _ _ _ _ _ _ _ _ _ _ _ B) as (_ & []). }
+    split; [intros Hw; exact (inner_after_request _ _ _ _ _ _ _ _ _ _ _ Hw B)|].
+    intros Hi; exact (alm_trace_interrupted_last _ _ _ _ _ _ Hrun pre rc post Etr Hi).
   Qed.
 End AlmStop.
